@@ -135,54 +135,58 @@ structure AVV where
   conflicting : Option Vote
   panicked : Bool := false
 
-/-- `addVerifiedVote(vote, blockKey, votingPower)`; `i = vote.ValidatorIndex` (in range). -/
-def addVerifiedVote (s : VoteSet) (v : Vote) (i : Nat) (power : Nat) : AVV :=
-  let k := v.block.key
-  -- Already exists in voteSet.votes?
+/-- First half of `addVerifiedVote` ("Already exists in voteSet.votes?"), after the
+duplicate panic has been excluded: returns the state and `conflicting`. -/
+def placeVote (s : VoteSet) (v : Vote) (i : Nat) (power : Nat) : VoteSet × Option Vote :=
   match at? s.votes i with
   | some e =>
-    if e.block = v.block then
-      { s := s, added := false, conflicting := none, panicked := true }  -- "does not expect duplicate votes"
-    else
-      -- Replace vote if blockKey matches voteSet.maj23.
-      let s1 : VoteSet :=
-        match s.maj23 with
-        | some m => if m.key = k then { s with votes := s.votes.set i (some v) } else s
-        | none => s
-      match alGet k s1.vbb with
-      | some bv =>
-        if !bv.peerMaj23 then
-          -- There's a conflict and no peer claims that this block is special.
-          { s := s1, added := false, conflicting := some e }
-        else
-          let origSum := bv.sum
-          let bv' := bv.add v i power
-          let s2 := { s1 with vbb := alSet k bv' s1.vbb }
-          if origSum < s.quorum ∧ s.quorum ≤ bv'.sum then
-            match s2.maj23 with
-            | none => { s := { s2 with maj23 := some v.block, votes := copyVotes s2.votes bv'.votes },
-                        added := true, conflicting := some e }
-            | some _ => { s := s2, added := true, conflicting := some e }
-          else { s := s2, added := true, conflicting := some e }
-      | none =>
-        -- We're not even tracking this blockKey, so just forget it.
-        { s := s1, added := false, conflicting := some e }
+    -- Replace vote if blockKey matches voteSet.maj23.  Otherwise don't add it to voteSet.votes
+    match s.maj23 with
+    | some m => if m.key = v.block.key then ({ s with votes := s.votes.set i (some v) }, some e) else (s, some e)
+    | none => (s, some e)
   | none =>
     -- Add to voteSet.votes and incr .sum
-    let s1 : VoteSet := { s with votes := s.votes.set i (some v), sum := s.sum + power }
-    let bv : BlockVotes :=
-      match alGet k s1.vbb with
-      | some bv => bv
-      | none => newBlockVotes false s.vals.length      -- Start tracking this blockKey
-    let origSum := bv.sum
-    let bv' := bv.add v i power
-    let s2 := { s1 with vbb := alSet k bv' s1.vbb }
-    if origSum < s.quorum ∧ s.quorum ≤ bv'.sum then
-      match s2.maj23 with
-      | none => { s := { s2 with maj23 := some v.block, votes := copyVotes s2.votes bv'.votes },
-                  added := true, conflicting := none }
-      | some _ => { s := s2, added := true, conflicting := none }
-    else { s := s2, added := true, conflicting := none }
+    ({ s with votes := s.votes.set i (some v), sum := s.sum + power }, none)
+
+/-- Tail of `addVerifiedVote` from "Before adding to votesByBlock, see if we'll exceed quorum". -/
+def trackVote (s1 : VoteSet) (bv : BlockVotes) (v : Vote) (i : Nat) (power : Nat)
+    (conflicting : Option Vote) : AVV :=
+  let origSum := bv.sum
+  let quorum := s1.quorum
+  -- Add vote to votesByBlock
+  let bv' := bv.add v i power
+  let s2 : VoteSet := { s1 with vbb := alSet v.block.key bv' s1.vbb }
+  -- If we just crossed the quorum threshold and have 2/3 majority...
+  if origSum < quorum ∧ quorum ≤ bv'.sum then
+    -- Only consider the first quorum reached
+    match s1.maj23 with
+    | none =>
+      -- And also copy votes over to voteSet.votes
+      { s := { s2 with maj23 := some v.block, votes := copyVotes s2.votes bv'.votes },
+        added := true, conflicting := conflicting }
+    | some _ => { s := s2, added := true, conflicting := conflicting }
+  else { s := s2, added := true, conflicting := conflicting }
+
+/-- `addVerifiedVote(vote, blockKey, votingPower)`; `i = vote.ValidatorIndex` (in range). -/
+def addVerifiedVote (s : VoteSet) (v : Vote) (i : Nat) (power : Nat) : AVV :=
+  if (match at? s.votes i with | some e => decide (e.block = v.block) | none => false) then
+    -- panic("addVerifiedVote does not expect duplicate votes")
+    { s := s, added := false, conflicting := none, panicked := true }
+  else
+  let (s1, conflicting) := placeVote s v i power
+  match alGet v.block.key s1.vbb with
+  | some bv =>
+    if conflicting.isSome && !bv.peerMaj23 then
+      -- There's a conflict and no peer claims that this block is special.
+      { s := s1, added := false, conflicting := conflicting }
+    else trackVote s1 bv v i power conflicting
+  | none =>
+    if conflicting.isSome then
+      -- We're not even tracking this blockKey, so just forget it.
+      { s := s1, added := false, conflicting := conflicting }
+    else
+      -- Start tracking this blockKey
+      trackVote s1 (newBlockVotes false s.vals.length) v i power conflicting
 
 /-- `AddVote` / `addVote` with the check order of the code.  (`len(valAddr) == 0`
 can never hold: `crypto.Address` is a `[20]byte` array, so that branch is dead.) -/
@@ -212,7 +216,7 @@ def addVote (s : VoteSet) (vote : Option Vote) : VoteSet × Outcome :=
         if r.panicked then (s, .panic .dupInVerified) else
         match r.conflicting with
         | some _ => (r.s, .ret r.added (some .conflict))
-        | none => if !r.added then (s, .panic .notAddedNoConflict) else (r.s, .ret true none)
+        | none => if !r.added then (r.s, .panic .notAddedNoConflict) else (r.s, .ret true none)
 
 -- ---------------------------------------------------------------- SetPeerMaj23
 
@@ -260,5 +264,45 @@ def step (s : VoteSet) : Event → VoteSet
   | .peerMaj p b => (setPeerMaj23 s p b).1
 
 def run (s : VoteSet) (evs : List Event) : VoteSet := evs.foldl step s
+
+-- ---------------------------------------------------------------- specification vocabulary
+
+/-- Σ power of the validators `i` with `l[i] ≠ nil` ("counted power of distinct validators"). -/
+def sumPow : List (Nat × Nat) → List (Option Vote) → Nat
+  | (_, p) :: vs, o :: os => (if o.isSome then p else 0) + sumPow vs os
+  | _, _ => 0
+
+/-- `votesByBlock[k].votes[i] = v`: validator `i`'s vote `v` is counted for block key `k`. -/
+def Tracked (s : VoteSet) (k i : Nat) (v : Vote) : Prop :=
+  ∃ bv, alGet k s.vbb = some bv ∧ at? bv.votes i = some v
+
+/-- Power counted for block key `k` (0 if the key is not tracked). -/
+def countedFor (s : VoteSet) (k : Nat) : Nat :=
+  match alGet k s.vbb with
+  | some bv => sumPow s.vals bv.votes
+  | none => 0
+
+/-- One `AddVote` call of a history: the state it was applied to, the vote, what it returned. -/
+structure LogEntry where
+  pre : VoteSet
+  vote : Vote
+  out : Outcome
+
+/-- `AddVote` reported `added = true` (with or without the conflict error). -/
+def LogEntry.added (e : LogEntry) : Prop := ∃ err, e.out = .ret true err
+
+/-- The vote was not reported as added but replaced `votes[i]`: a conflicting vote
+for the block that already has the +2/3 majority, no peer having claimed that block. -/
+def LogEntry.lateStored (e : LogEntry) : Prop :=
+  e.out = .ret false (some .conflict) ∧ ∃ m, e.pre.maj23 = some m ∧ m.key = e.vote.block.key
+
+/-- The vote set kept the vote (in `votesByBlock` and/or in `votes`). -/
+def LogEntry.stored (e : LogEntry) : Prop := e.added ∨ e.lateStored
+
+/-- The log of all non-nil `AddVote` calls of a history. -/
+def runLog (s : VoteSet) : List Event → List LogEntry
+  | [] => []
+  | .vote (some v) :: evs => ⟨s, v, (addVote s (some v)).2⟩ :: runLog (addVote s (some v)).1 evs
+  | e :: evs => runLog (step s e) evs
 
 end GnoVerif.C35
